@@ -102,6 +102,16 @@ class C04Interp(ShiftInterp):
             if all(v is True for v in vs):
                 return True
             return None
+        if isinstance(t, ast.BoolOp) and isinstance(t.op, ast.Or):
+            vs = [self._truth(v, env) for v in t.values]
+            if any(v is True for v in vs):
+                return True
+            if all(v is False for v in vs):
+                return False
+            return None
+        if isinstance(t, ast.UnaryOp) and isinstance(t.op, ast.Not):
+            v = self._truth(t.operand, env)
+            return None if v is None else (not v)
         return super()._truth(t, env)
 
 
